@@ -1,8 +1,170 @@
 import Driver.Util
-open Lean
+import Paroxy.Model.MakeDb
+import Paroxy.Spec.MakeDb
+open Lean Paroxy Paroxy.DB
 
 namespace Driver.C11
 
-def handlers : List (String × Handler) := []
+def jName (n : DB.Name) : Json := Json.str (strOf n)
+def jNames (l : List DB.Name) : Json := Json.arr (l.map jName).toArray
+def jPairs {β : Type} (f : β → Json) (d : List (DB.Name × β)) : Json :=
+  Json.arr (d.map fun e => Json.arr #[jName e.1, f e.2]).toArray
+def jPoor (s : PoorSpan) : Json := Json.arr #[Json.num (JsonNumber.fromInt s.1), Json.num (JsonNumber.fromInt s.2)]
+def jPoors (l : List PoorSpan) : Json := Json.arr (l.map jPoor).toArray
+
+def getName (j : Json) : Except String DB.Name := do
+  let s ← j.getStr?
+  pure (codesOf s)
+
+def getNames (j : Json) : Except String (List DB.Name) := do
+  let a ← j.getArr?
+  a.toList.mapM getName
+
+def getSpan3 (j : Json) : Except String Span3 := do
+  let a ← j.getArr?
+  match a.toList with
+  | [x, y, p] => do
+    let x ← x.getInt?
+    let y ← y.getInt?
+    let p ← getName p
+    pure (x, y, p)
+  | [x, y] => do
+    let x ← x.getInt?
+    let y ← y.getInt?
+    pure (x, y, [])
+  | _ => throw "span must be [start, end, path]"
+
+def getNamed {β : Type} (f : Json → Except String β) (j : Json) : Except String (DB.Name × β) := do
+  let a ← j.getArr?
+  match a.toList with
+  | [k, v] => do
+    let k ← getName k
+    let v ← f v
+    pure (k, v)
+  | _ => throw "expected a [key, value] pair"
+
+def getDict {β : Type} (f : Json → Except String β) (j : Json) : Except String (List (DB.Name × β)) := do
+  let a ← j.getArr?
+  a.toList.mapM (getNamed f)
+
+def getSpans (j : Json) : Except String (List Span3) := do
+  let a ← j.getArr?
+  a.toList.mapM getSpan3
+
+def getLabels (j : Json) : Except String (List Label) := do
+  let d ← getDict getSpans j
+  pure (d.map fun e => { name := e.1, spans := e.2 })
+
+def getTaxa (j : Json) : Except String (List Taxon) := do
+  let d ← getDict getSpans j
+  pure (d.map fun e => { name := e.1, spans := e.2 })
+
+def getProg (j : Json) : Except String (Prog × List Taxon) := do
+  let path ← getName (← j.getObjVal? "path")
+  let ts ← getName (← j.getObjVal? "timestamp")
+  let src ← getName (← j.getObjVal? "source")
+  let labels ← getLabels (← j.getObjVal? "labels")
+  let taxa ← getTaxa (← j.getObjVal? "taxa")
+  pure ({ path := path, timestamp := ts, source := src, labels := labels }, taxa)
+
+/-- The taxonomy oracle instantiated by the recorded answers of the real `Taxonomy.to_taxa`. -/
+def oracle (table : List (DB.Name × List Taxon)) : DB.Name → List Label → List Taxon :=
+  fun p _ => (get? table p).getD []
+
+def jRecord (r : Record) : Json :=
+  Json.mkObj [("timestamp", jName r.timestamp), ("source", jName r.source),
+    ("labels", jPairs jPoors r.labels), ("taxa", jPairs jPoors r.taxa)]
+
+def jDb (db : Db) : Json :=
+  Json.mkObj [("programs", jPairs jRecord db.programs), ("labels", jPairs jNames db.labels),
+    ("taxa", jPairs jNames db.taxa), ("importations", jPairs jNames db.importations),
+    ("exportations", jPairs jNames db.exportations)]
+
+def jInt (i : Int) : Json := Json.num (JsonNumber.fromInt i)
+
+def jSqlite (db : Db) : Json :=
+  Json.mkObj [
+    ("program", Json.arr ((programRows db).map fun r =>
+      Json.arr #[jName r.program, jName r.timestamp, jName r.source]).toArray),
+    ("label", Json.arr ((labelRows db).map fun r =>
+      Json.arr #[jName r.label, jName r.pre, jName r.suf, jName r.span, jInt r.start, jInt r.stop,
+        jName r.program]).toArray),
+    ("taxon", Json.arr ((taxonRows db).map fun r =>
+      Json.arr #[jName r.taxon, jName r.span, jInt r.start, jInt r.stop, jName r.program]).toArray)]
+
+def jErr : Err → Json
+  | .keyError k => Json.mkObj [("exc", "KeyError"), ("key", jName k)]
+
+def readProgs (j : Json) : Except String (List Prog × List (DB.Name × List Taxon)) := do
+  let a ← getArr j "progs"
+  let ps ← a.toList.mapM getProg
+  pure (ps.map (·.1), ps.map fun p => (p.1.path, p.2))
+
+/-- `c11.model`: `TagDatabase(dir)`'s data and SQLite rows from the recorded parser/taxonomy outputs. -/
+def model : Handler := fun j => do
+  let (progs, table) ← readProgs j
+  match makeDb (oracle table) progs with
+  | .error e => pure (jErr e)
+  | .ok db => pure (Json.mkObj [("db", jDb db), ("sqlite", jSqlite db)])
+
+/-- `c11.spec`: the declarative specification of the same value (Spec/MakeDb.lean). -/
+def spec : Handler := fun j => do
+  let (progs, table) ← readProgs j
+  match specDb (oracle table) progs with
+  | none => pure (Json.mkObj [("exc", "unresolved-import")])
+  | some db => pure (Json.mkObj [("db", jDb db), ("sqlite", jSqlite db)])
+
+/-- `c11.closure`: `complete_and_collect_importations` on a synthetic dictionary. -/
+def closure : Handler := fun j => do
+  let d ← getDict getNames (← j.getObjVal? "direct")
+  pure (Json.mkObj [("r", jPairs jNames (completeImportations d))])
+
+/-- `c11.spec_closure`: the specification's reachability sets (sorted). -/
+def specClosure : Handler := fun j => do
+  let d ← getDict getNames (← j.getObjVal? "direct")
+  pure (Json.mkObj [("r", jPairs jNames (specImportations d))])
+
+/-- `c11.exportations`: `compute_and_collect_exportations`. -/
+def exportationsH : Handler := fun j => do
+  let paths ← getNames (← j.getObjVal? "paths")
+  let imps ← getDict getNames (← j.getObjVal? "imps")
+  match exportations paths imps with
+  | .error e => pure (jErr e)
+  | .ok r => pure (Json.mkObj [("r", jPairs jNames r)])
+
+def specExportationsH : Handler := fun j => do
+  let paths ← getNames (← j.getObjVal? "paths")
+  let imps ← getDict getNames (← j.getObjVal? "imps")
+  pure (Json.mkObj [("r", jPairs jNames (DB.specExportations paths imps))])
+
+/-- `c11.relabel`: the label names after the relabelling loop of `labelled_programs`, and the
+direct importations `compute_direct_importations` derives from them. -/
+def relabelH : Handler := fun j => do
+  let paths ← getNames (← j.getObjVal? "paths")
+  let names ← getNames (← j.getObjVal? "names")
+  let internal := internalPaths paths
+  let r := names.map (relabelName internal)
+  let ls : List Label := r.map fun n => { name := n, spans := [] }
+  pure (Json.mkObj [("names", jNames r), ("direct", jNames (directOf paths ls)),
+    ("search", Json.arr (names.map fun n => match searchImport? n with
+      | some g => jName g | none => Json.null).toArray)])
+
+def preparedH : Handler := fun j => do
+  let ls ← getLabels (← j.getObjVal? "labels")
+  pure (Json.mkObj [("r", jPairs jPoors (preparedLabels ls))])
+
+def collectH : Handler := fun j => do
+  let occ ← getDict getName (← j.getObjVal? "occ")
+  pure (Json.mkObj [("r", jPairs jNames (sortKeys (collect occ)))])
+
+def lineNumbers : Handler := fun j => do
+  let s ← getName (← j.getObjVal? "source")
+  pure (Json.mkObj [("r", jName (addLineNumbers s))])
+
+def handlers : List (String × Handler) :=
+  [("c11.model", model), ("c11.spec", spec), ("c11.closure", closure),
+   ("c11.spec_closure", specClosure), ("c11.exportations", exportationsH),
+   ("c11.spec_exportations", specExportationsH), ("c11.relabel", relabelH),
+   ("c11.prepared", preparedH), ("c11.collect", collectH), ("c11.line_numbers", lineNumbers)]
 
 end Driver.C11
